@@ -353,6 +353,68 @@ def suite_zipfs(tier, rng, out, shared):
 
 
 # ==========================================================================
+# suite: codec -- (T) Serial/Codec.v against the written __init__.py files
+# ==========================================================================
+def suite_codec(tier, rng, out, shared):
+    import c04codec
+    terms, idx = [], []
+    skipped = 0
+    for c, r in shared["ok"]:
+        if "texts" not in r:
+            continue
+        try:
+            terms.append(c04codec.case_term(r["d0"], r["texts"]))
+            idx.append((c, r))
+        except (c04codec.Abstraction, SyntaxError, KeyError) as e:
+            # a written file outside the statement vocabulary: the model does not describe the code
+            out.tie_mismatches.append({"case": c, "detail": "written __init__.py cannot be abstracted into Codec.v statements: %r" % (e,)})
+    bad = fw.run_coq_cases("C04codec", ["Base.Paths", "Serial.Codec"], "modelD * (list line * list ftree)", "check_codec", terms, shard=60)
+    for i in bad:
+        c, r = idx[i]
+        out.tie_mismatches.append({"case": c, "detail": "Serial/Codec.v: encode(description) differs from the statements of the written "
+                                   "__init__.py files, or decode of the written files does not re-encode to them",
+                                   "impl": {k: v for k, v in r["texts"].items() if k.endswith("__init__.py")},
+                                   "model": fw.coq_show("C04codec", ["Base.Paths", "Serial.Codec"],
+                                                        "let c := %s in (wf_model (fst c), encode (fst c), decode (snd c))" % terms[i])[-3000:]})
+    out.traces_validated += len(terms) - len(bad)
+    out.distribution["codec"] = {"cases": len(terms), "files": sum(sum(1 for k in r["texts"] if k.endswith("__init__.py")) for _, r in idx)}
+
+
+# ==========================================================================
+# suite: lexer -- (T) Serial/Lexer.v against Python's own reading of """doc"""
+# ==========================================================================
+def suite_lexer(tier, rng, out, shared):
+    terms, docs = [], []
+    seen = set()
+    for c, r in zip(shared["cases"], shared["res"]):
+        for d, py in zip(c.get("lex", []), r.get("lex", [])):
+            if d in seen or py[0] == "other":
+                continue
+            seen.add(d)
+            docs.append((d, py))
+            try:
+                terms.append(ctuple([cstr(d), copt(cstr(py[1]) if py[0] == "ok" else None)]))
+            except UnicodeEncodeError:      # lone surrogate produced by an escape: outside the byte model
+                docs.pop()
+    bad = fw.run_coq_cases("C04lexer", ["Serial.Lexer"], "string * option string", "check_lex", terms, shard=400)
+    for i in bad:
+        d, py = docs[i]
+        out.tie_mismatches.append({"case": {"doc": d}, "impl": py,
+                                   "detail": "Serial/Lexer.v lex_triple / safe_doc disagree with ast.literal_eval on a triple-quoted literal",
+                                   "model": fw.coq_show("C04lexer", ["Serial.Lexer"], "(lex_triple (q3 ++ %s ++ q3), safe_doc %s)" % (cstr(d), cstr(d)))[-800:]})
+    out.traces_validated += len(terms) - len(bad)
+    out.evaluations += len(terms)
+    nsafe = sum(1 for d, _ in docs if c04gen.safe_doc(d))
+    out.distribution["lexer"] = {"docs": len(terms), "safe": nsafe, "python_rejects": sum(1 for _, p in docs if p[0] == "err"),
+                                 "altered": sum(1 for d, p in docs if p[0] == "ok" and p[1] != d)}
+    # (P) the harness predicate used by the generator is the exact condition on these samples
+    for d, py in docs:
+        if c04gen.safe_doc(d) and not (py[0] == "ok" and py[1] == d):
+            out.p_failures.append({"case": {"doc": d}, "detail": "a safe documentation string is not read back unchanged by Python: %r -> %r" % (d, py),
+                                   "script": "import ast\nd=%r\nassert ast.literal_eval('\"\"\"'+d+'\"\"\"')==d" % d})
+
+
+# ==========================================================================
 def run(tier, seed, rng):
     out = Outcome()
     out.rule = ("paths: random (target, namespace, relative name) triples over a name pool with string-prefix pairs; "
